@@ -20,7 +20,7 @@ RULE = ("cell = (full|diag density, R, D, index list (all non-empty duplicate-fr
 
 def cells(tier, seed):
     out = []
-    Ds = (1, 2, 3, 4) if tier == "quick" else (1, 2, 3, 4, 5, 6)
+    Ds = (1, 2, 3, 4, 5) if tier == "quick" else (1, 2, 3, 4, 5, 6)
     Rs = (1, 3) if tier == "quick" else (1, 2, 4)
     for diag in (False, True):
         for R in Rs:
